@@ -10,12 +10,41 @@ from typing import Any, Callable, Dict, Iterable, List, Tuple
 from .report import INCONCLUSIVE
 
 
+class TaskTimeout(BaseException):
+    """raised by the watchdog alarm inside a worker (BaseException: harness code catches Exception only)"""
+
+
+def _task_limit() -> int:
+    d = 3600 if os.environ.get("VERIF_TIER_EFFECTIVE") == "thorough" else 600
+    return int(os.environ.get("VERIF_TASK_TIMEOUT", d))
+
+
 def _call(fn: Callable[..., List[Dict[str, Any]]], args: Tuple[Any, ...]) -> List[Dict[str, Any]]:
+    """one harness task under a wall-clock watchdog: a mutated library must not be able to hang a check (path explosion, endless loop)"""
+    import signal
+    limit = _task_limit()
+
+    def on_alarm(signum: int, frame: Any) -> None:
+        raise TaskTimeout()
+
+    old = None
+    try:
+        old = signal.signal(signal.SIGALRM, on_alarm)
+        signal.alarm(limit)
+    except (ValueError, OSError):  # not the main thread
+        old = None
     try:
         return fn(*args)
+    except TaskTimeout:
+        return [{"type": "obligation", "name": f"{fn.__name__}{args!r}"[:200], "status": INCONCLUSIVE,
+                 "detail": f"task exceeded the watchdog limit of {limit} s (never reported as success)", "queries": 0}]
     except Exception:
         return [{"type": "obligation", "name": f"{fn.__name__}{args!r}"[:200], "status": INCONCLUSIVE,
                  "detail": traceback.format_exc()[-1500:], "queries": 0}]
+    finally:
+        if old is not None:
+            signal.alarm(0)
+            signal.signal(signal.SIGALRM, old)
 
 
 def run_tasks(tasks: Iterable[Tuple[Callable[..., List[Dict[str, Any]]], Tuple[Any, ...]]],
